@@ -37,10 +37,14 @@ def gen_case(rng, ctx):
         ds = libx.normalise_raw(ds)
         blocks = [[libx.lib_value(e, ei) for e in b] for b in blocks]
         scls, sch = gen.scheme(rng, "S1 S1 S2 S3 S3 S6 S11")
+    elif rng.random() < 0.06:
+        cls, ds = gen.dataset(rng, cls="D25", n=rng.choice([3, 4, 5, 6]), mmax=6)
+        ds = libx.normalise_raw(ds)
+        scls, sch = gen.scheme(rng, "S17 S17 S16")
     else:
         cls, ds = gen.dataset(rng, classes="D11 D11 D11 D10 D10 D8 D8 D9 D3 D2 D2 D7 D15", nmax=nmax, mmax=6)
         ds = libx.normalise_raw(ds)
-        scls, sch = gen.scheme(rng, "S1 S1 S2 S3 S3 S3 S6 S9 S11 S11")
+        scls, sch = gen.scheme(rng, "S1 S1 S2 S3 S3 S3 S6 S9 S11 S11 S12 S16 S16")
     # (partition, consensus) pair for consistent_with
     uni = ref.universe(ds)
     base = gen.ranking_over(rng, uni, rng.choice([0.0, 0.3, 0.5]))
